@@ -488,12 +488,20 @@ func c10Cells() []c10Cell {
 		}
 		sort.Strings(names)
 		_, hasMax := rt.MethodByName("SetMax")
+		_, hasCap := rt.MethodByName("SetCapacity")
+		// queues carry caller-supplied callbacks as fields (refused / evicted element)
+		hasCallbacks := false
+		if rt.Kind() == reflect.Ptr && rt.Elem().Kind() == reflect.Struct {
+			if f, ok := rt.Elem().FieldByName("Overflowed"); ok && f.Type.Kind() == reflect.Func {
+				hasCallbacks = true
+			}
+		}
 		for _, n := range names {
 			c10CellsCache = append(c10CellsCache, c10Cell{ti, n, 0}, c10Cell{ti, n, 1})
-			if hasMax {
+			if hasMax || hasCap {
 				c10CellsCache = append(c10CellsCache, c10Cell{ti, n, 2})
 			}
-			if m, _ := rt.MethodByName(n); m.Type.NumIn() == 2 && m.Type.In(1).Kind() == reflect.Func {
+			if m, _ := rt.MethodByName(n); (m.Type.NumIn() == 2 && m.Type.In(1).Kind() == reflect.Func) || (hasCallbacks && n != "SetCapacity") {
 				c10CellsCache = append(c10CellsCache, c10Cell{ti, n, 3})
 			}
 		}
@@ -520,7 +528,7 @@ func c10MethodsBody(rc *RunCtx) {
 	t := c10Types[c.ti]
 	d := &c10Data{Type: t.Name, ti: c.ti}
 	d.Label = t.Name + "." + c.method
-	d.Label += []string{"(empty)", "(populated)", "(bounded,full)", "(populated, comparator panics)"}[c.state]
+	d.Label += []string{"(empty)", "(populated)", "(bounded,full)", "(populated, caller's callback panics)"}[c.state]
 	c10PanickingCmp = c.state == 3
 	defer func() { c10PanickingCmp = false }()
 	rc.Data = d
@@ -530,6 +538,23 @@ func c10MethodsBody(rc *RunCtx) {
 		if c.state == 2 || c.state == 3 {
 			if sm := reflect.ValueOf(obj).MethodByName("SetMax"); sm.IsValid() {
 				sm.Call([]reflect.Value{reflect.ValueOf(3)})
+			}
+			// queues: bounded through SetCapacity, so that the three elements below fill them
+			if sc := reflect.ValueOf(obj).MethodByName("SetCapacity"); sc.IsValid() {
+				args := []reflect.Value{reflect.ValueOf(3)}
+				if sc.Type().NumIn() == 2 {
+					args = append(args, reflect.ValueOf(1))
+				}
+				sc.Call(args)
+			}
+			if c.state == 3 {
+				// ... and their caller-supplied callbacks (refused / evicted element) panic
+				for _, fn := range []string{"Overflowed", "Failed"} {
+					if f := reflect.ValueOf(obj).Elem().FieldByName(fn); f.IsValid() && f.CanSet() && f.Kind() == reflect.Func {
+						name := fn
+						f.Set(reflect.ValueOf(func(interface{}) { panic("callback " + name + " fails") }))
+					}
+				}
 			}
 		}
 		populate(obj, 3, 11) // keys 11..13: the swept call (key 2) is a NEW key, so a bounded full instance must evict
@@ -580,6 +605,7 @@ func c10MethodsBody(rc *RunCtx) {
 		}
 		tk2 := simrt.GoNamed("after", func() {
 			invoke(obj, "Put", 99, 9999)
+			invoke(obj, "Put1", 99, 9999) // the double queue's form
 			invoke(obj, "Size", 0, 0)
 		})
 		simrt.Settle(int64(30 * time.Second))
